@@ -178,3 +178,74 @@ func c01putsPhase(r *Run, rng *Rng, n int) {
 		c01puts(r, b.String())
 	}
 }
+
+// c01rowseq: row-attribute setters in order on a new worksheet against SaveBook.writeRowAttr.
+func c01rowseq(r *Run, spec string) {
+	w := strings.Fields(spec)
+	res := "bad-op"
+	func() {
+		defer func() {
+			if recover() != nil {
+				res = "PANIC"
+			}
+		}()
+		n, err := strconv.Atoi(w[0])
+		if err != nil || len(w) != 1+3*n {
+			return
+		}
+		f := xl.NewFile()
+		defer f.Close()
+		for k := 0; k < n; k++ {
+			i, _ := strconv.Atoi(w[2+3*k])
+			var e error
+			switch w[1+3*k] {
+			case "h":
+				h, _ := strconv.ParseFloat(unhx(w[3+3*k]), 64)
+				e = f.SetRowHeight("Sheet1", i+1, h)
+			case "v":
+				e = f.SetRowVisible("Sheet1", i+1, w[3+3*k] == "1")
+			default:
+				lv, _ := strconv.Atoi(w[3+3*k])
+				e = f.SetRowOutlineLevel("Sheet1", i+1, uint8(lv))
+			}
+			if e != nil {
+				res = "ERR"
+				return
+			}
+		}
+		res = xl.VerifC01Rows(f, "Sheet1")
+	}()
+	ln := r.Op("rowseq "+spec, res)
+	r.Case("rowseq:"+spec, true)
+	r.Stat("rowseq")
+	if rows, ok := c01parse(res); ok {
+		if _, dense := c01denseAbs(rows); !dense {
+			r.Fail("rowseq:not-dense", "worksheet not dense after a sequence of row-attribute setters", ln, "rowseq "+spec)
+		}
+	}
+}
+
+func c01rowseqPhase(r *Run, rng *Rng, n int) {
+	c01rowseq(r, "0")
+	c01rowseq(r, "3 h 2 "+hx("33.5")+" v 0 0 o 2 3")
+	for k := 0; k < n; k++ {
+		m := rng.Range(1, 6)
+		var b strings.Builder
+		b.WriteString(strconv.Itoa(m))
+		for q := 0; q < m; q++ {
+			i := rng.Intn(6)
+			if rng.Chance(5) {
+				i = rng.Pick2([]int{40, 120})
+			}
+			switch rng.Intn(3) {
+			case 0:
+				fmt.Fprintf(&b, " h %d %s", i, hx(rng.Pick([]string{"33.5", "20", "0", "409"})))
+			case 1:
+				fmt.Fprintf(&b, " v %d %d", i, rng.Intn(2))
+			default:
+				fmt.Fprintf(&b, " o %d %d", i, rng.Range(1, 7))
+			}
+		}
+		c01rowseq(r, b.String())
+	}
+}
